@@ -313,6 +313,39 @@ def props_level(ctx):
                 ctx.disagree("properties after PROPPATCH vs model", case, stored, a["props"])
 
 
+def property_values_level(ctx):
+    """what PROPPATCH acknowledges is what PROPFIND shows afterwards, for the kinds of value clients set on collections: plain text (also
+    padded, multi-line, non-ASCII, with characters XML escapes), an empty value, the component-set and time-zone properties of CalDAV - and
+    a dead property whose value is XML (known finding F35: only the text of a value is kept)"""
+    import re
+    from common import App
+    ns = 'xmlns:D="DAV:" xmlns:C="urn:ietf:params:xml:ns:caldav" xmlns:I="http://apple.com/ns/ical/" xmlns:X="http://example.com/ns"'
+    cases = [("I:calendar-color", "#FF0000FF", None), ("D:displayname", "  padded  name  ", None), ("D:displayname", "multi\nline", None),
+             ("D:displayname", "caf\u00e9 \U0001f600 &amp; &lt;b&gt;", None), ("X:custom", "v", None), ("I:calendar-order", "3", None),
+             ("C:calendar-timezone", "BEGIN:VCALENDAR\nBEGIN:VTIMEZONE\nTZID:Europe/Berlin\nEND:VTIMEZONE\nEND:VCALENDAR\n", None),
+             ("X:nested", "<X:a>1</X:a><X:b>2</X:b>", "F35"), ("X:mixed", "text<X:a>1</X:a>", "F35")]
+    with App({"auth": {"type": "none"}}) as app:
+        app.request("MKCALENDAR", "/u/c/", login="u:pw")
+        for tag, val, finding in cases:
+            local = tag.split(":")[1]
+            st, _, t1 = app.request("PROPPATCH", "/u/c/", '<?xml version="1.0"?><D:propertyupdate %s><D:set><D:prop><%s>%s</%s></D:prop></D:set></D:propertyupdate>'
+                                    % (ns, tag, val, tag), login="u:pw")
+            acknowledged = st == 207 and " 200 " in t1
+            st2, _, t2 = app.request("PROPFIND", "/u/c/", '<?xml version="1.0"?><D:propfind %s><D:prop><%s/></D:prop></D:propfind>' % (ns, tag), login="u:pw", HTTP_DEPTH="0")
+            m = re.search(r"<(?:\w+:)?%s[^>]*?(?:/>|>(.*?)</(?:\w+:)?%s>)" % (local, local), t2, re.S)
+            shown = (m.group(1) or "") if m else None
+            case = {"property": tag, "value": val[:80], "proppatch": st, "acknowledged": acknowledged, "shown": shown}
+            ctx.case("propvalue:%s" % tag, sample=case, key=["propvalue", tag, val], nontrivial=True)
+            if not acknowledged:
+                continue
+            # (an XML value: the element names are what counts, prefixes may differ)
+            want = re.sub(r"</?\w+:", lambda mm: mm.group(0)[0] + ("/" if "/" in mm.group(0) else ""), val)
+            got = re.sub(r"</?\w+:", lambda mm: mm.group(0)[0] + ("/" if "/" in mm.group(0) else ""), shown or "")
+            got = re.sub(r"\s*xmlns:\w+=\"[^\"]*\"", "", got)
+            if got != want:
+                ctx.violation("PROPPATCH acknowledged %s = %r, PROPFIND then shows %r" % (tag, val[:60], shown), case, val, shown, finding=finding)
+
+
 def run(ctx):
     ctx.extra["rule"] = ("random histories of 5-40 requests (MKCOL, MKCALENDAR, PUT item / whole collection, DELETE, MOVE +-Overwrite, PROPPATCH, "
                          "GET, PROPFIND 0/1, multiget) over 9 collection paths, 7 hrefs, 6 UIDs, calendars and address books, with conditional "
@@ -321,6 +354,7 @@ def run(ctx):
                     "SHA-256 ETags as injective function of content (compared up to renaming)"]
     ctx.assumptions += ["sequential execution (concurrency is C09)", "bodies limited to the object pool (valid and invalid combinations)"]
     props_level(ctx)
+    property_values_level(ctx)
     rng = ctx.rng("hist")
     n = ctx.n(40, 1500)
     # quick: the two back-ends, plus one of the cache layouts in turn
